@@ -61,6 +61,18 @@ func (c *Ctl) Delay(point string, ds ...time.Duration) *Ctl {
 	return c
 }
 
+// DelayNext delays the hit of point that comes skip hits after the next one (skip 0 = the next hit) by d; all other
+// hits of the point are not delayed. May be called while the controller is installed.
+func (c *Ctl) DelayNext(point string, skip int, d time.Duration) {
+	c.mu.Lock()
+	defer c.mu.Unlock()
+	n := c.hits[point]
+	ds := make([]time.Duration, n+skip+1)
+	ds[n+skip] = d
+	c.fixed[point] = ds
+	delete(c.repeat, point)
+}
+
 // DelayAll delays every hit of point by d.
 func (c *Ctl) DelayAll(point string, d time.Duration) *Ctl {
 	c.fixed[point] = []time.Duration{d}
